@@ -52,3 +52,392 @@ theorem level_list {adj : Adj} {s : Nat} {st : St} (h : AInv adj s st) (v : Nat)
       · exact ⟨by have := (h3 x hx).1; omega, (h3 x hx).2⟩
 
 end BGV.AllPred
+
+namespace BGV.AllPred
+open Bfs (nbrs MAX WF Walk getD_set nbrs_lt pigeon)
+
+/-- a finite distance is below the number of vertices, hence (graphs with fewer than `MAX`
+vertices) never reaches the sentinel -/
+theorem dist_lt_n {adj : Adj} {s : Nat} {st : St} (h : AInv adj s st) (v : Nat) (hv : st.d v ≠ MAX) :
+    st.d v + 1 ≤ adj.length := by
+  obtain ⟨l, h1, h2, h3⟩ := level_list h v hv (st.d v) (Nat.le_refl _)
+  have := pigeon l adj.length h2 (fun x hx => (h3 x hx).2)
+  omega
+
+theorem pairwise_of_forall_mem {α} (R : α → α → Prop) (l : List α) (h : ∀ a ∈ l, ∀ b ∈ l, R a b) : l.Pairwise R := by
+  induction l with
+  | nil => exact List.Pairwise.nil
+  | cons a l ih =>
+    refine List.Pairwise.cons (fun b hb' => h a (by simp) b (by simp [hb'])) (ih ?_)
+    intro x hx y hy; exact h x (by simp [hx]) y (by simp [hy])
+
+theorem finish_d (cur : Nat) (st : St) (v : Nat) : (finish cur st).d v = st.d v := rfl
+theorem finish_ps (cur : Nat) (st : St) (v : Nat) : (finish cur st).ps v = st.ps v := rfl
+theorem finish_queue (cur : Nat) (st : St) : (finish cur st).queue = st.queue.tail := rfl
+theorem finish_pr {n} (cur : Nat) (st : St) (h : Sized n st) (hc : cur < n) (v : Nat) :
+    (finish cur st).pr v = if v = cur then true else st.pr v := by
+  show (st.processed.set cur true).getD v false = _
+  rw [getD_set]
+  by_cases hvc : v = cur
+  · subst hvc; simp [h.hs, hc]
+  · have : ¬ cur = v := fun e => hvc e.symm
+    simp only [this, false_and, if_false, hvc]; rfl
+
+theorem step_inv {adj : Adj} {s : Nat} (hwf : WF adj) (hn : adj.length < MAX) {st : St} {cur : Nat} {rest : List Nat}
+    (h : AInv adj s st) (hq : st.queue = cur :: rest) :
+    AInv adj s (finish cur (expand adj cur st)) ∧
+    (∀ x ∈ (finish cur (expand adj cur st)).queue, (finish cur (expand adj cur st)).pr x = false) ∧
+    (∀ x, st.pr x = true → (finish cur (expand adj cur st)).pr x = true) ∧
+    (finish cur (expand adj cur st)).pr cur = true := by
+  have hcurq : cur ∈ st.queue := by simp [hq]
+  have hcs : st.d cur ≠ MAX := h.qseen cur hcurq
+  have hcn : cur < adj.length := h.seenlt cur hcs
+  have hb : ∀ w ∈ nbrs adj cur, w < adj.length := fun w hw => nbrs_lt hwf hw
+  have hDn := dist_lt_n h cur hcs
+  have hcur1 : st.d cur + 1 < MAX := by omega
+  obtain ⟨f1, f2, f3, f4, new, f5, f6, f7⟩ :=
+    fold_char cur (nbrs adj cur) st h.sized hb hcur1 (fun v hv => (h.unseen v hv).1)
+  -- queue facts
+  have hqn := h.qnodup; rw [hq] at hqn
+  have hcr : cur ∉ rest := (List.nodup_cons.1 hqn).1
+  have hrn : rest.Nodup := (List.nodup_cons.1 hqn).2
+  have hqs := h.qsorted; rw [hq] at hqs
+  have hcle : ∀ x ∈ rest, st.d cur ≤ st.d x := (List.pairwise_cons.1 hqs).1
+  have hrs : rest.Pairwise (fun a b => st.d a ≤ st.d b) := (List.pairwise_cons.1 hqs).2
+  have hspan : ∀ x ∈ cur :: rest, st.d x ≤ st.d cur + 1 := by
+    have := h.qspan cur (by simp [hq]); rwa [hq] at this
+  have hrestnp : ∀ x ∈ rest, st.pr x = false := by
+    intro x hx; exact h.qtail x (by simp [hq, hx])
+  -- abbreviations for the new state
+  obtain ⟨F, hF⟩ : ∃ F, F = (nbrs adj cur).foldl (visit cur) st := ⟨_, rfl⟩
+  rw [← hF] at f1 f2 f3 f4 f5
+  have hexp : expand adj cur st = F := by rw [hF]; rfl
+  rw [hexp]
+  have hq' : (finish cur F).queue = rest ++ new := by
+    rw [finish_queue, f5, hq]; rfl
+  have hpr' : ∀ v, (finish cur F).pr v = if v = cur then true else st.pr v := by
+    intro v; rw [finish_pr cur F f1 hcn, f2]
+  -- (A) finite distances do not change
+  have hA : ∀ v, st.d v ≠ MAX → F.d v = st.d v := by
+    intro v hv
+    rw [f3]
+    by_cases hc : v ∈ nbrs adj cur ∧ upd cur st v
+    · have hnp := hc.2.1
+      have hle := hc.2.2.1
+      have hvq : v ∈ st.queue := h.seen_np v hv hnp
+      have := hspan v (by rw [← hq]; exact hvq)
+      rw [if_pos hc]
+      omega
+    · rw [if_neg hc]
+  -- (B) new vertices get distance d cur + 1
+  have hB : ∀ v, st.d v = MAX → F.d v = if v ∈ nbrs adj cur then st.d cur + 1 else MAX := by
+    intro v hv
+    rw [f3]
+    have hu : upd cur st v := ⟨(h.unseen v hv).2, by rw [hv]; omega, by rw [(h.unseen v hv).1]; simp⟩
+    by_cases hm : v ∈ nbrs adj cur
+    · simp [hm, hu]
+    · simp [hm, hv]
+  have hseen' : ∀ v, F.d v ≠ MAX ↔ (st.d v ≠ MAX ∨ v ∈ nbrs adj cur) := by
+    intro v
+    by_cases hv : st.d v = MAX
+    · rw [hB v hv]
+      by_cases hm : v ∈ nbrs adj cur
+      · simp [hm, hv]; omega
+      · simp [hm, hv]
+    · rw [hA v hv]; simp [hv]
+  have hnew : ∀ v, v ∈ new ↔ (v ∈ nbrs adj cur ∧ st.d v = MAX) := by
+    intro v; rw [f7]
+    constructor
+    · rintro ⟨h1, _, h3⟩; exact ⟨h1, h3⟩
+    · rintro ⟨h1, h3⟩; exact ⟨h1, (h.unseen v h3).2, h3⟩
+  have hdnew : ∀ v ∈ new, F.d v = st.d cur + 1 := by
+    intro v hv
+    obtain ⟨h1, h2⟩ := (hnew v).1 hv
+    rw [hB v h2]; simp [h1]
+  have hpsmono : ∀ v p, p ∈ st.ps v → p ∈ F.ps v := by
+    intro v p hp; rw [f4]; split
+    · exact List.mem_append_left _ hp
+    · exact hp
+  have hunproc : ∀ x ∈ rest ++ new, (finish cur F).pr x = false := by
+    intro x hx'
+    have hxc : x ≠ cur := by
+      rintro rfl
+      rcases List.mem_append.1 hx' with h1 | h1
+      · exact hcr h1
+      · exact hcs ((hnew _).1 h1).2
+    rw [hpr']; simp only [hxc, if_false]
+    rcases List.mem_append.1 hx' with h1 | h1
+    · exact hrestnp x h1
+    · exact ((f7 x).1 h1).2.1
+  refine ⟨
+    { sized := ?_, src := ?_, seenlt := ?_, dle := ?_, lev := ?_, tree := ?_, pvalid := ?_, pnodup := ?_,
+      qseen := ?_, qnodup := ?_, qtail := ?_, seen_np := ?_, pr_seen := ?_, closed := ?_, mono := ?_,
+      qsorted := ?_, qspan := ?_, unseen := ?_ }, ?_, ?_, ?_⟩
+  · -- sized
+    exact ⟨f1.hd, f1.hp, by show (F.processed.set cur true).length = _; simp [f1.hs]⟩
+  · -- src
+    refine ⟨?_, ?_, ?_, h.src.2.2.2⟩
+    · rw [finish_d, hA s (by rw [h.src.1]; decide)]; exact h.src.1
+    · rw [hpr']; split
+      · rfl
+      · exact h.src.2.1
+    · rw [finish_ps, f4]
+      have : ¬ upd cur st s := by intro hu; have h1 := hu.1; rw [h.src.2.1] at h1; cases h1
+      simp [this, h.src.2.2.1]
+  · -- seenlt
+    intro v hv
+    rw [finish_d] at hv
+    rcases (hseen' v).1 hv with h1 | h1
+    · exact h.seenlt v h1
+    · exact hb v h1
+  · -- dle
+    intro v
+    rw [finish_d]
+    by_cases hv : st.d v = MAX
+    · rw [hB v hv]; split
+      · omega
+      · exact Nat.le_refl _
+    · rw [hA v hv]; exact h.dle v
+  · -- lev
+    intro v hv k hk
+    rw [finish_d] at hv hk
+    by_cases hvs : st.d v = MAX
+    · have hm : v ∈ nbrs adj cur := by
+        rcases (hseen' v).1 hv with h1 | h1
+        · exact absurd hvs h1
+        · exact h1
+      rw [hB v hvs] at hk
+      simp only [hm, if_true] at hk
+      by_cases hk' : k ≤ st.d cur
+      · obtain ⟨u, hu⟩ := h.lev cur hcs k hk'
+        have hus : st.d u ≠ MAX := by rw [hu]; omega
+        exact ⟨u, by rw [finish_d, hA u hus]; exact hu⟩
+      · refine ⟨v, ?_⟩
+        rw [finish_d, hB v hvs]; simp only [hm, if_true]; omega
+    · rw [hA v hvs] at hk
+      obtain ⟨u, hu⟩ := h.lev v hvs k hk
+      have hus : st.d u ≠ MAX := by
+        rw [hu]; have := h.dle v; omega
+      exact ⟨u, by rw [finish_d, hA u hus]; exact hu⟩
+  · -- tree
+    intro v hv hvs
+    rw [finish_d] at hv
+    rw [finish_ps, f4]
+    by_cases hold : st.d v = MAX
+    · have hm : v ∈ nbrs adj cur := by
+        rcases (hseen' v).1 hv with h1 | h1
+        · exact absurd hold h1
+        · exact h1
+      have hu : upd cur st v := ⟨(h.unseen v hold).2, by rw [hold]; omega, by rw [(h.unseen v hold).1]; simp⟩
+      simp [hm, hu]
+    · have := h.tree v hold hvs
+      split
+      · simp
+      · exact this
+  · -- pvalid
+    intro v p hp
+    rw [finish_ps, f4] at hp
+    simp only [finish_d]
+    have hold : ∀ p, p ∈ st.ps v → F.d p ≠ MAX ∧ v ∈ nbrs adj p ∧ F.d v = F.d p + 1 := by
+      intro p hp
+      obtain ⟨h1, h2, h3⟩ := h.pvalid v p hp
+      have hvs : st.d v ≠ MAX := by
+        intro hv; rw [(h.unseen v hv).1] at hp; cases hp
+      rw [hA p h1, hA v hvs]; exact ⟨h1, h2, h3⟩
+    by_cases hc : v ∈ nbrs adj cur ∧ upd cur st v
+    · simp only [hc, and_self, if_true, List.mem_append, List.mem_singleton] at hp
+      rcases hp with hp | rfl
+      · exact hold p hp
+      · refine ⟨by rw [hA p hcs]; exact hcs, hc.1, ?_⟩
+        rw [f3]; simp only [hc, and_self, if_true]; rw [hA p hcs]
+    · simp only [hc, if_false] at hp
+      exact hold p hp
+  · -- pnodup
+    intro v
+    rw [finish_ps, f4]
+    split
+    · rename_i hc
+      rw [List.nodup_append]
+      refine ⟨h.pnodup v, by simp, ?_⟩
+      intro a ha b hb' hab
+      simp only [List.mem_singleton] at hb'
+      subst hb'; subst hab
+      exact hc.2.2.2 ha
+    · exact h.pnodup v
+  · -- qseen
+    intro x hx
+    rw [hq'] at hx
+    rw [finish_d]
+    rcases List.mem_append.1 hx with h1 | h1
+    · have := h.qseen x (by simp [hq, h1]); rw [hA x this]; exact this
+    · rw [hdnew x h1]; omega
+  · -- qnodup
+    rw [hq', List.nodup_append]
+    refine ⟨hrn, f6, ?_⟩
+    intro a ha b hb' hab
+    subst hab
+    have := h.qseen a (by simp [hq, ha])
+    exact this ((hnew a).1 hb').2
+  · -- qtail
+    intro x hx
+    rw [hq'] at hx
+    have hx' : x ∈ rest ++ new := List.mem_of_mem_tail hx
+    have hxc : x ≠ cur := by
+      rintro rfl
+      rcases List.mem_append.1 hx' with h1 | h1
+      · exact hcr h1
+      · exact hcs ((hnew _).1 h1).2
+    rw [hpr']; simp only [hxc, if_false]
+    rcases List.mem_append.1 hx' with h1 | h1
+    · exact hrestnp x h1
+    · exact ((f7 x).1 h1).2.1
+  · -- seen_np
+    intro v hv hp
+    rw [finish_d] at hv
+    rw [hpr'] at hp
+    rw [hq']
+    by_cases hvc : v = cur
+    · simp [hvc] at hp
+    · simp only [hvc, if_false] at hp
+      by_cases hold : st.d v = MAX
+      · have hm : v ∈ nbrs adj cur := by
+          rcases (hseen' v).1 hv with h1 | h1
+          · exact absurd hold h1
+          · exact h1
+        exact List.mem_append_right _ ((hnew v).2 ⟨hm, hold⟩)
+      · have := h.seen_np v hold hp
+        rw [hq] at this
+        rcases List.mem_cons.1 this with h1 | h1
+        · exact absurd h1 hvc
+        · exact List.mem_append_left _ h1
+  · -- pr_seen
+    intro v hp
+    rw [hpr'] at hp
+    rw [finish_d]
+    by_cases hvc : v = cur
+    · subst hvc; rw [hA v hcs]; exact hcs
+    · simp only [hvc, if_false] at hp
+      have := h.pr_seen v hp
+      rw [hA v this]; exact this
+  · -- closed
+    intro u hu hnq w hw
+    rw [hpr'] at hu
+    rw [hq'] at hnq
+    simp only [finish_d, finish_ps]
+    by_cases huc : u = cur
+    · subst huc
+      rw [hA u hcs]
+      by_cases hwp : st.pr w = true
+      · have hws := h.pr_seen w hwp
+        rw [hA w hws]
+        have hwd : st.d w ≤ st.d u := by
+          by_cases hwq : w ∈ st.queue
+          · rw [hq] at hwq
+            rcases List.mem_cons.1 hwq with h1 | h1
+            · rw [h1]; exact Nat.le_refl _
+            · have := hrestnp w h1; rw [hwp] at this; cases this
+          · exact h.mono w hwp hwq u hcurq
+        exact ⟨hws, by omega, fun he => by omega⟩
+      · have hwp' : st.pr w = false := by simpa using hwp
+        by_cases hws : st.d w = MAX
+        · have hu' : upd u st w := ⟨hwp', by rw [hws]; omega, by rw [(h.unseen w hws).1]; simp⟩
+          rw [hB w hws]; simp only [hw, if_true]
+          refine ⟨by omega, Nat.le_refl _, fun _ => ?_⟩
+          rw [f4]; simp [hw, hu']
+        · rw [hA w hws]
+          have hwq := h.seen_np w hws hwp'
+          have h1 := hspan w (by rw [← hq]; exact hwq)
+          refine ⟨hws, h1, fun he => ?_⟩
+          rw [f4]
+          by_cases hin : u ∈ st.ps w
+          · split
+            · exact List.mem_append_left _ hin
+            · exact hin
+          · have hu' : upd u st w := ⟨hwp', by omega, hin⟩
+            simp [hw, hu']
+    · simp only [huc, if_false] at hu
+      have hunq : u ∉ st.queue := by
+        rw [hq]; intro hm
+        rcases List.mem_cons.1 hm with h1 | h1
+        · exact huc h1
+        · exact hnq (List.mem_append_left _ h1)
+      obtain ⟨c1, c2, c3⟩ := h.closed u hu hunq w hw
+      have hus := h.pr_seen u hu
+      rw [hA w c1, hA u hus]
+      exact ⟨c1, c2, fun he => hpsmono w u (c3 he)⟩
+  · -- mono
+    intro u hu hnq x hx
+    rw [hpr'] at hu
+    rw [hq'] at hnq hx
+    simp only [finish_d]
+    have hxd : st.d cur ≤ F.d x := by
+      rcases List.mem_append.1 hx with h1 | h1
+      · have hxs := h.qseen x (by simp [hq, h1])
+        rw [hA x hxs]; exact hcle x h1
+      · rw [hdnew x h1]; omega
+    by_cases huc : u = cur
+    · subst huc; rw [hA u hcs]; exact hxd
+    · simp only [huc, if_false] at hu
+      have hunq : u ∉ st.queue := by
+        rw [hq]; intro hm
+        rcases List.mem_cons.1 hm with h1 | h1
+        · exact huc h1
+        · exact hnq (List.mem_append_left _ h1)
+      have hus := h.pr_seen u hu
+      rw [hA u hus]
+      have := h.mono u hu hunq cur hcurq
+      omega
+  · -- qsorted
+    rw [hq', List.pairwise_append]
+    refine ⟨?_, ?_, ?_⟩
+    · refine hrs.imp_of_mem ?_
+      intro a b ha hb' hab
+      simp only [finish_d]
+      rw [hA a (h.qseen a (by simp [hq, ha])), hA b (h.qseen b (by simp [hq, hb']))]; exact hab
+    · have hall : ∀ a ∈ new, ∀ b ∈ new, (finish cur F).d a ≤ (finish cur F).d b := by
+        intro a ha b hb'
+        simp only [finish_d]
+        rw [hdnew a ha, hdnew b hb']; exact Nat.le_refl _
+      exact pairwise_of_forall_mem _ _ hall
+    · intro a ha b hb'
+      simp only [finish_d]
+      rw [hA a (h.qseen a (by simp [hq, ha])), hdnew b hb']
+      exact hspan a (by simp [ha])
+  · -- qspan
+    intro hd hhd x hx
+    rw [hq'] at hhd hx
+    simp only [finish_d]
+    have hxle : F.d x ≤ st.d cur + 1 := by
+      rcases List.mem_append.1 hx with h1 | h1
+      · rw [hA x (h.qseen x (by simp [hq, h1]))]; exact hspan x (by simp [h1])
+      · rw [hdnew x h1]; exact Nat.le_refl _
+    have hhdm : hd ∈ rest ++ new := by
+      cases hrl : rest ++ new with
+      | nil => rw [hrl] at hhd; cases hhd
+      | cons a l => rw [hrl] at hhd; simp at hhd; rw [← hhd]; simp
+    have hhdge : st.d cur ≤ F.d hd := by
+      rcases List.mem_append.1 hhdm with h1 | h1
+      · rw [hA hd (h.qseen hd (by simp [hq, h1]))]; exact hcle hd h1
+      · rw [hdnew hd h1]; omega
+    omega
+  · -- unseen
+    intro v hv
+    rw [finish_d] at hv
+    have hold : st.d v = MAX := by
+      by_cases hold : st.d v = MAX
+      · exact hold
+      · rw [hA v hold] at hv; exact absurd hv hold
+    have hnm : v ∉ nbrs adj cur := by
+      intro hm; rw [hB v hold] at hv; simp only [hm, if_true] at hv; omega
+    refine ⟨?_, ?_⟩
+    · rw [finish_ps, f4]; simp [hnm, (h.unseen v hold).1]
+    · rw [hpr']
+      have : v ≠ cur := by rintro rfl; exact hcs hold
+      simp only [this, if_false]; exact (h.unseen v hold).2
+  · intro x hx; rw [hq'] at hx; exact hunproc x hx
+  · intro x hx; rw [hpr']; split
+    · rfl
+    · exact hx
+  · rw [hpr']; simp
+
+end BGV.AllPred
